@@ -1206,14 +1206,38 @@ def replay(path):
             raise vlib.ToolError("replay of a differential report needs the operator case; re-run the check")
         run_ops("thorough", ev, verd, [case], valsets, tag="replay")
     elif kind in ("trace", "recorded"):
-        e = obj["event"]
+        # re-execute the recorded spelling on the real crate, then let TLC judge the fresh observation
+        e = dict(obj["event"])
+        text, ty = obj.get("text"), obj.get("type")
+        fam = e["fam"]
+        if fam == "expr":
+            vals = [(-v["abs"] if v["neg"] else v["abs"]) for v in e["vals"]]
+            obs = {"cls": "typeerr"}
+            for rty in ("i64", "bool"):
+                res = vlib.run_batch("c09", [expr_script(text, e["lt"], rty, [vals])], nproc=1, pid=PID, tag="replay")[0]
+                if vlib.outcome_of(res) != "returned":
+                    obs = {"cls": "abnormal"}
+                    break
+                r = res["r"]
+                if r["compile"] == "ok":
+                    obs = {"cls": "val", "v": result_of(r["vals"][0])}
+                    break
+                if r["kinds"] == ["parse"]:
+                    obs = {"cls": "reject"}
+                    break
+        else:
+            res = vlib.run_batch("c09", [harness_case(e["sp"], text, ty, False)], nproc=1, pid=PID, tag="replay")[0]
+            o, abnormal = observe(fam, ty, res)
+            obs = {"cls": "abnormal"} if abnormal else ({"cls": "reject"} if o["cls"] == "reject" else o)
+        e["obs"] = obs
         d = vlib.workdir(PID, "trace")
         p = os.path.join(d, "replay.ndjson")
-        if "obs" in e:
-            vlib.write_ndjson(p, [e])
-            r = vlib.validate_trace("TraceGrammar", "TraceGrammar.cfg", p)
-            if not r.ok:
-                verd.report({"family": e["fam"], "failure": "trace-rejected"}, "recorded observation not allowed by the specification: %s" % json.dumps(e)[:400], obj)
-        else:
-            verd.report({"family": e["fam"], "failure": "abnormal"}, "compiler did not return normally on `%s`" % obj.get("text"), obj)
+        vlib.write_ndjson(p, [e])
+        r = vlib.validate_trace("TraceGrammar", "TraceGrammar.cfg", p)
+        if not (r.ok or r.postcondition_failed):
+            raise vlib.ToolError("trace validation failed to run: %s" % r.error)
+        if not r.ok:
+            verd.report({"family": fam, "failure": "trace-rejected"},
+                        "`%s`: observation %s is not allowed by the specification (expected %s)" %
+                        (text, json.dumps(obs)[:300], json.dumps(r.replay[0]["expected"])[:300] if r.replay else "?"), obj)
     return verd.finish()
